@@ -31,7 +31,11 @@ def build_axreal():
         wd = tempfile.mkdtemp(prefix="axreal.", dir="/var/tmp")
         shutil.copytree(AXREAL_DIR, wd, dirs_exist_ok=True)
         open(os.path.join(wd, "Cargo.toml"), "w").write(toml2)
-    r = subprocess.run(["cargo", "build", "--offline"], cwd=wd, env=e, capture_output=True, text=True)
+    try:
+        r = subprocess.run(["cargo", "build", "--offline"], cwd=wd, env=e, capture_output=True, text=True)
+    finally:
+        if wd != AXREAL_DIR:
+            shutil.rmtree(wd, ignore_errors=True)  # scratch copy of the crate sources only (the build output lives in CARGO_TARGET_DIR)
     if r.returncode != 0:
         raise RuntimeError("axreal build failed: " + r.stderr[-1500:])
     return os.path.join(tgt, "debug/axreal")
